@@ -22,8 +22,10 @@ func genVecPlanCase(t *rapid.T) planCase {
 	s := gen.GenSchema(t, so)
 	po := gen.PlanOpts{MaxDepth: 3, MaxChildren: 3, Batch: gen.BatchOpts{MaxDocs: 8, AllowEmpty: true}}
 	p := s.GenPlan(t, "p", po)
-	if gen.Chance(t, "clustered", 5) {
-		// make the first leaf large so the merged total crosses 1000 vectors
+	if gen.Chance(t, "clustered", 15) {
+		// make the first leaf large so the merged total crosses 1000 vectors, and shape its
+		// deletions so that the survivors of the field land on interesting counts:
+		// below / at / above the exact-vs-clustered threshold (1000) and on multiples of 1024
 		var first *spec.MergePlan
 		walkPlan(p, func(n *spec.MergePlan) {
 			if first == nil && n.IsLeaf() {
@@ -31,10 +33,50 @@ func genVecPlanCase(t *rapid.T) planCase {
 			}
 		})
 		vo := s.Vecs[0]
-		first.Leaf.VecWide = &spec.VecWideSpec{N: rapid.SampledFrom([]int{995, 1010, 1200}).Draw(t, "vwN"), Field: vo.Name, Dim: vo.Dim, Metric: vo.Metric, Opt: vo.Opt, Seed: uint32(rapid.IntRange(0, 500).Draw(t, "vwSeed"))}
-		// re-derive drops for the enlarged leaf: keep the generated ones (they only name small doc numbers)
+		n := rapid.SampledFrom([]int{995, 1010, 1200, 1100, 2100}).Draw(t, "vwN")
+		first.Leaf.VecWide = &spec.VecWideSpec{N: n, Field: vo.Name, Dim: vo.Dim, Metric: vo.Metric, Opt: vo.Opt, Seed: uint32(rapid.IntRange(0, 500).Draw(t, "vwSeed"))}
+		parent, idx := findParent(p, first)
+		if parent != nil {
+			target := rapid.SampledFrom([]int{1024, 2048, 1023, 1025, 999, 1000, 900, 15, 0}).Draw(t, "vwTarget")
+			if target > 0 {
+				// vectors of the field that survive this merge without any wide document
+				all := spec.DropSpec{Docs: append([]uint32(nil), parent.Drops[idx].Docs...)}
+				base := len(first.Leaf.Docs)
+				for i := 0; i < n; i++ {
+					all.Docs = append(all.Docs, uint32(base+i))
+				}
+				saved := parent.Drops[idx]
+				parent.Drops[idx] = all
+				s0 := 0
+				if vf := spec.ExpectResolved(spec.Resolve(parent)).Vec[vo.Name]; vf != nil {
+					s0 = len(vf.Entries)
+				}
+				parent.Drops[idx] = saved
+				keep := target - s0
+				if keep >= 0 && keep <= n {
+					d := spec.DropSpec{Docs: append([]uint32(nil), saved.Docs...)}
+					for i := 0; i < n-keep; i++ {
+						d.Docs = append(d.Docs, uint32(base+i))
+					}
+					parent.Drops[idx] = d
+				}
+			}
+		}
 	}
 	return planCase{Plan: p}
+}
+
+// findParent returns the inner node (and child index) that has leaf as a direct child.
+func findParent(root, leaf *spec.MergePlan) (*spec.MergePlan, int) {
+	for i := range root.Children {
+		if &root.Children[i] == leaf {
+			return root, i
+		}
+		if p, k := findParent(&root.Children[i], leaf); p != nil {
+			return p, k
+		}
+	}
+	return nil, 0
 }
 
 func runVecPlanCase(c planCase) *Violation {
